@@ -502,11 +502,11 @@ func TestB2C13Chains(t *testing.T) {
 }
 
 // c13CheckChildNotdefWithParent: notdef entries of a CMap that also has a parent.
-// TODO-DEFECT: File.LookupCID hands an unmapped code to Parent.LookupCID and never
+// (repaired, see known-findings.txt): File.LookupCID handed an unmapped code to Parent.LookupCID and never
 // consults the child's own NotdefSingles/NotdefRanges (child notdefrange 00..ff -> 7,
 // code unmapped in child and parent: LookupCID gives 0, LookupNotdefCID gives 7, and 7
-// without the parent).  Set to true once that is repaired.
-const c13CheckChildNotdefWithParent = false
+// without the parent).
+const c13CheckChildNotdefWithParent = true
 
 const c13TextKinds = 8
 
